@@ -66,6 +66,13 @@ func New(pcapDir, indexDir, snapshotDir string, cachedKnownPcaps []*pcapmetadata
 				continue
 			}
 		}
+		if info.PacketCount == 0 {
+			// A capture without packets (only the file header has been written so
+			// far) has no timestamps. FromPcap does not register such a file either;
+			// as a known pcap its zero PacketTimestampMin would stop FromPcap from
+			// loading the older captures before it processes new packets.
+			continue
+		}
 		b.knownPcaps = append(b.knownPcaps, info)
 		b.packetCount += info.PacketCount
 	}
